@@ -116,6 +116,20 @@ def _resource_rule(maker):
     return f
 
 
+def _group_in_precedence(kind, side):
+    """T and O form a task group that has no window; a third task O2 precedes (or follows) the group"""
+    def f(P, t, o):
+        o2 = make_task(P, "O2", "fixed")
+        members = [x.obj for x in (t, o) if x is not None]
+        cls = ps.UnorderedTaskGroup if kind == "unordered" else ps.OrderedTaskGroup
+        g = cls(name="grp", list_of_tasks=members)
+        if side == "after":
+            ps.TaskPrecedence(name="before_group", task_before=o2.obj, task_after=g, offset=P.int("c_off", ph=1))
+        else:
+            ps.TaskPrecedence(name="after_group", task_before=g, task_after=o2.obj, offset=P.int("c_off", ph=1))
+    return f
+
+
 CONTEXTS = {
     "tasks_distance_exact": _resource_rule(lambda P, w: ps.ResourceTasksDistance(resource=w, distance=P.int("r_dist", ph=2), mode="exact")),
     "tasks_distance_min": _resource_rule(lambda P, w: ps.ResourceTasksDistance(resource=w, distance=P.int("r_dist", ph=2), mode="min")),
@@ -130,6 +144,9 @@ CONTEXTS = {
     "indicator_max_lateness": lambda P, t, o: {"indicators": [ps.IndicatorMaximumLateness()]},
     "indicator_resource_idle": _resource_rule(lambda P, w: ps.IndicatorResourceIdle(resource=w)),
     "objective_flowtime_single_resource": _resource_rule(lambda P, w: ps.ObjectiveMinimizeFlowtimeSingleResource(resource=w)),
+    "windowless_group_after_a_task": _group_in_precedence("unordered", "after"),
+    "windowless_group_before_a_task": _group_in_precedence("unordered", "before"),
+    "windowless_ordered_group_after_a_task": _group_in_precedence("ordered", "after"),
     "plain": ctx_plain,
     "release_due": ctx_release_due,
     "worker": ctx_worker,
